@@ -36,8 +36,9 @@ Pipelines (Martian/TypingPipeline.lean):
   pipe  ::= <name> <nins> (<id> <type>){nins} <nouts> (<id> <type>){nouts} <ncalls> <cstm>{ncalls}
             <binds> <wild> <nretain> <exp>{nretain}
   pipe    <pipe>               → `ok (<callid>:<shape>)*` | `call <i> dupcall` | `call <i> mods <cls,…>`
-                                 | `call <i> binds <cls,…>` | `ret <cls,…>` | `retain <i>`
+                                 | `call <i> binds <cls,…>` | `unused <hexlist>` | `ret <cls,…>` | `retain <i>`
                                  (first failure, in the order of `checkPipeline`; must agree with `validPipeline`)
+  top     <cstm>               → `ok <shape>` | `bad <cls,…>`   (top-level call statement, `checkTop`)
   sretain <nouts> (<out> <type>){nouts} <hexlist>   → `true` | `false`
   strict  <env> <type> <exp>   → `<validExp> <overStrict>`
 -/
@@ -290,6 +291,7 @@ def diagPipe (p : Pipeline) : String :=
     match diagCalls { self := p.ins, calls := [] } 0 "" p.calls with
     | .error s => s
     | .ok (Γ, acc) =>
+      if !(unusedInputs p).isEmpty then "unused " ++ hexList (unusedInputs p) else
       match callErrsW Γ p.outs.toList p.ret p.retWild with
       | e :: es => "ret " ++ ",".intercalate ((e :: es).map showBindErr)
       | [] =>
@@ -297,7 +299,22 @@ def diagPipe (p : Pipeline) : String :=
         | some i => s!"retain {i}"
         | none => "ok" ++ acc
   -- the diagnosis must agree with the function the theorems are about
-  if validPipeline p == verdict.startsWith "ok" then verdict else "model-inconsistent " ++ verdict
+  if validPipelineU p == verdict.startsWith "ok" then verdict else "model-inconsistent " ++ verdict
+
+/-- diagnosis of a top-level call next to `checkTop` -/
+def diagTop (c : CallStm) : String :=
+  let cls : List String :=
+    (if c.wild.isSome then ["wildcard"] else []) ++
+    (modErrs emptyEnv c.callee c.binds none c.mods).map showModErr ++
+    (if !c.mods.usings.isEmpty && (usingDisabled c.mods.usings).isSome then ["disabled"] else []) ++
+    (if !c.mods.usings.isEmpty && effective c.mods.kwPreflight (usingVal 1 c.mods.usings) then ["preflight"] else []) ++
+    (callErrs emptyEnv c.callee.params c.binds).map showBindErr
+  let verdict :=
+    match cls, checkTop c with
+    | [], some sh => "ok " ++ showShapeTok sh
+    | [], none => "bad inconsistent-model"
+    | cs, _ => "bad " ++ ",".intercalate cs
+  if validTop c == verdict.startsWith "ok" then verdict else "model-inconsistent " ++ verdict
 
 def handle (op : String) (args : List String) : Option String :=
   match op, args with
@@ -341,6 +358,9 @@ def handle (op : String) (args : List String) : Option String :=
   | "pipe", [p] => do
     let p ← whole parsePipe p
     pure (diagPipe p)
+  | "top", [c] => do
+    let c ← whole parseStm c
+    pure (diagTop c)
   | "sretain", [outs, ids] => do
     let outs ← whole (counted parseTyped) outs
     let ids ← parseHexList ids
